@@ -194,6 +194,18 @@ theorem C02_each_object_items (a : Nat) (st : St) (ho : (st.heap.getMap a).order
     | none => simp [ih]
     | some w => simp [ih]
 
+/-- **C02 (a member that is present but null is still a member).** A key of the insertion order whose value is null / undefined
+(`{first: user.first, middle: user.middle}` without a middle name in the data) is visited like every other key - presence is decided by
+the key, never by the value. (Seeded change C02-13 answered `HasMember` through `Member()` and dropped exactly these iterations.) -/
+theorem C02_each_object_null_member_visited (a : Nat) (st : St) (ho : (st.heap.getMap a).order.length > 0) (k : String) (w : Val)
+    (hk : k ∈ (st.heap.getMap a).order) (hp : assocGet (st.heap.getMap a).items k = some w) :
+    ∃ l, rangeKind (.map a) st = .ok (.items l, st) ∧ (Val.str k, mapMember (st.heap.getMap a) k) ∈ l := by
+  obtain ⟨l, h1, h2⟩ := C02_each_object_items a st ho
+  refine ⟨l, h1, ?_⟩
+  subst h2
+  simp only [List.mem_map, List.mem_filter]
+  exact ⟨k, ⟨hk, by simp [hp]⟩, rfl⟩
+
 /-- **C02 (each over a missing or null collection renders nothing).** -/
 theorem C02_each_missing (v : Val) (hv : v = .nil ∨ v = .invalid) (st : St) :
     rangeKind v st = .ok (.nothing, st) := by
